@@ -543,6 +543,12 @@ func c08AtomicSection(c *Ctx, all map[string][]*LockAnalysis) {
 		}
 	}
 	c.Floor("C08.L5-atomic-section", 2)
+	// "every advertisement in between was reported exactly once": a sync that fails part-way reports nothing — the
+	// blocks it fetched are reported by the later sync that succeeds (reporting them from the failed one reports
+	// them twice)
+	handlerExpiryRefreshed(c, "C08.L1-handler-kept-while-used")
+	hookAfterWalk(c, "C08.L6-report-only-on-success")
+	c.Floor("C08.L6-report-only-on-success", 1)
 }
 
 // callsStatic reports whether fn (or a literal nested in it) calls target statically.
@@ -554,4 +560,68 @@ func callsStatic(fn, target *ssa.Function) bool {
 		}
 	})
 	return found
+}
+
+// handlerExpiryRefreshed: the per-publisher handler carries the mutex that
+// serialises that publisher's syncs and the slot of its hook; an idle cleaner
+// removes handlers whose expiry passed. Every use of an existing handler must
+// therefore push its expiry forward — otherwise a handler older than the idle
+// time is removed while in use, the next sync gets a second handler (second
+// mutex) and the two syncs of one publisher run concurrently.
+func handlerExpiryRefreshed(c *Ctx, rule string) {
+	n := 0
+	for _, f := range c.Funcs(dagsyncPkg) {
+		// the lookup-or-create routine: comma-ok lookup in the handlers map and a handler literal stored into it
+		var lk *ssa.Lookup
+		instrs(f.SSA, func(in ssa.Instruction) {
+			if l, ok := in.(*ssa.Lookup); ok && l.CommaOk {
+				if m := strip(c.E(l.X)); m.Op == "field" && m.Name == "handlers" && fieldOwner(m) == "Subscriber" {
+					lk = l
+				}
+			}
+		})
+		if lk == nil {
+			continue
+		}
+		creates := false
+		instrs(f.SSA, func(in ssa.Instruction) {
+			if mu, ok := in.(*ssa.MapUpdate); ok {
+				if m := strip(c.E(mu.Map)); m.Op == "field" && m.Name == "handlers" {
+					creates = true
+				}
+			}
+		})
+		if !creates {
+			continue
+		}
+		n++
+		found := Extract("0", Is(c.E(lk)))
+		ok := false
+		instrs(f.SSA, func(in ssa.Instruction) {
+			st, isSt := in.(*ssa.Store)
+			if !isSt {
+				return
+			}
+			a := c.E(st.Addr)
+			if a.Op != "field" || a.Name != "expires" || fieldOwner(a) != "handler" {
+				return
+			}
+			if _, m := Match(found, a.Args[0]); !m {
+				return
+			}
+			// on the found edge (or unconditionally), with now + idle time
+			_, onFound := c.Guarded(st, Extract("1", Is(c.E(lk))), true)
+			uncond := st.Block() == lk.Block() || lk.Block().Dominates(st.Block()) && len(c.FactsAt(st.Block())) == len(c.FactsAt(lk.Block()))
+			v := c.E(st.Val)
+			fromNow := v.Contains(func(y *X) bool { return y.Op == "call" && nameMatches(y.Name, "time.Now") }) && v.Contains(func(y *X) bool { return y.Op == "field" && y.Name == "idleHandlerTTL" })
+			if (onFound || uncond) && fromNow {
+				ok = true
+			}
+		})
+		c.Check(ok, rule, f.Name+" › existing handler's expiry pushed forward", lk.Pos(), "an existing handler gets expires = now + idle time whenever it is handed out", "an existing handler is handed out without refreshing its expiry: the idle cleaner removes it while it is in use and a second handler (with its own mutex and count) serves the same publisher concurrently")
+	}
+	if n == 0 {
+		c.Unk(rule, "dagsync › handler lookup-or-create", token.NoPos, "not found")
+	}
+	c.Floor(rule, 1)
 }
